@@ -1,32 +1,26 @@
 //! ad-hoc probes (not part of any check)
-use engeom::geom3::SvdBasis3;
-use engeom::Point3;
-use parry3d_f64::na::{DMatrix, Matrix3};
+use crate::c10::Family;
+use engeom::airfoil::helpers::{extract_curve_beyond_station, OrientedCircles};
+use engeom::airfoil::*;
+use engeom::common::BestFit;
+use engeom::geom2::{Circle2, Curve2};
+use engeom::Vector2;
 pub fn run() {
-    let raw = [-11.797795129620413, 18.575699091130165, 4.938397641037181, -8.4775246628248, 19.939612124010598, 3.7293047064013614, -7.886333244313191, 20.18246393042179, 3.514019423383568, -8.734077553039857, 19.834224375004364, 3.8227297119909793, -9.367489143555284, 19.57402920954386, 4.053389679745885, -8.576886344122588, 19.898795963566368, 3.765487754750021, -9.469444413982286, 19.53214764492529, 4.090517196421097, -10.913143498827894, 18.93909957336899, 4.616247368310277, -11.232409773085434, 18.807950187566302, 4.732509763296684, -8.905364643052058, 19.763862428058136, 3.885104754144686, -7.108438395163933, 20.502010465433194, 3.2307451614215044, -11.937926283761225, 18.518135495225376, 4.989427094838737];
-    let pts: Vec<Point3> = raw.chunks(3).map(|c| Point3::new(c[0], c[1], c[2])).collect();
-    let b = SvdBasis3::from_points(&pts, None);
-    println!("engeom sv {:?}", b.sv);
-    let mut m = DMatrix::zeros(pts.len(), 3);
-    let mut g = Matrix3::zeros();
-    for (i, p) in pts.iter().enumerate() {
-        let v = p - b.center;
-        for j in 0..3 { m[(i, j)] = v[j]; }
-        g += v * v.transpose();
-    }
-    let e = g.symmetric_eigen();
-    println!("eigen of gram: {:?} sqrt {:?}", e.eigenvalues, e.eigenvalues.map(|x: f64| x.max(0.0).sqrt()));
-    println!("frobenius^2 {}", m.norm_squared());
-    let s = m.clone().svd(true, true);
-    println!("svd(true,true) {:?}", s.singular_values);
-    let s = m.clone().svd(false, false);
-    println!("svd(false,false) {:?}", s.singular_values);
-    let s = m.clone().svd_unordered(false, true);
-    println!("svd_unordered {:?}", s.singular_values);
-    let s = m.transpose().svd(true, false);
-    println!("svd of transpose {:?}", s.singular_values);
-    let s = m.clone().svd(true, true);
-    let rec = s.recompose().unwrap();
-    println!("recompose err {:e}", (rec - m.clone()).norm());
-    println!("singular_values() {:?}", m.singular_values());
+    let fam = Family { len: 10.0, bend: -0.3, r0: 0.3310252146591124, r1: 0.1992736563632777, b: 0.8322379830345092, n_side: 80, n_cap: 30 };
+    let pts = fam.outline();
+    let section = Curve2::from_points(&pts, 1e-6, true).unwrap();
+    let geo = AirfoilGeometry::try_analyze(&section, 1e-4, DirectionFwd::make(Vector2::new(-1.0, 0.0)), IntersectEdge::make(), IntersectEdge::make(), FaceOrient::Detect).unwrap();
+    let st = geo.stations.clone();
+    println!("{} stations; last centre {:?} r {}", st.len(), st[st.len() - 1].center(), st[st.len() - 1].radius());
+    let oc = OrientedCircles::new(st.clone(), false);
+    let station = oc.last().unwrap();
+    println!("contacts {:?} {:?}", station.contact_pos, station.contact_neg);
+    let end_sp = oc.end_sp().unwrap().normal;
+    println!("end dir {:?}", end_sp);
+    let edge = extract_curve_beyond_station(&section, station, &end_sp).unwrap();
+    println!("edge curve: {} points, length {} (section {} points, length {}); first {:?} last {:?}", edge.points().len(), edge.length(), section.points().len(), section.length(), edge.points()[0], edge.points()[edge.points().len() - 1]);
+    let test = Circle2::fitting_circle(edge.points(), &station.circle, BestFit::Gaussian(2.0)).unwrap();
+    println!("fit centre {:?} r {}", test.center, test.r());
+    let res = edge.points().iter().map(|p| test.distance_to(p).abs()).fold(0.0, f64::max);
+    println!("max residual {res:e}");
 }
